@@ -140,7 +140,9 @@ def canon(x):
 
 # ------------------------------------------------------------------ layouts of the decorator (C07)
 def decorator_text(case, i, ind):
-    lam = "lambda %s: %s" % (", ".join(case["cond_params"]), X.src(case["tree"]))
+    defaults = dict((n, v) for n, v in case.get("cond_defaults", []))
+    plist = ", ".join(("%s=%r" % (n, defaults[n])) if n in defaults else n for n in case["cond_params"])
+    lam = "lambda %s: %s" % (plist, X.src(case["tree"]))
     desc = case.get("description")
     layout = case.get("layout", 0)
     extra = ", a_repr=REPRS[%d]" % i
@@ -158,7 +160,7 @@ def decorator_text(case, i, ind):
         return ["%s@icontract.require(" % ind, "%s    # the condition" % ind, "%s    condition=%s%s" % (ind, lam, extra),
                 "%s)" % ind]
     if layout == 5:      # the lambda body continues on the next line
-        return ["%s@icontract.require(lambda %s:" % (ind, ", ".join(case["cond_params"])),
+        return ["%s@icontract.require(lambda %s:" % (ind, plist),
                 "%s                   %s%s)" % (ind, X.src(case["tree"]), extra)]
     if layout == 6:      # neighbouring decorators of other kinds above and below
         return ["%s@icontract.ensure(lambda result: True)" % ind, "%s@foreign" % ind,
@@ -362,6 +364,8 @@ def run_case(i, case, mod, plain):
         env_params_all["_ARGS"], env_params_all["_KWARGS"] = (), {n: env_params_all[n] for n in order}
     else:
         env_params_all["_ARGS"], env_params_all["_KWARGS"] = tuple(env_params_all[n] for n in case["func_params"]), {}
+    for n, v in case.get("cond_defaults", []):
+        env_params_all.setdefault(n, to_py(v, mod))
     cond_env = {n: env_params_all[n] for n in case["cond_params"]}
     saved = {n: mod.__dict__[n] for n in env_globals if n in mod.__dict__}
     mod.__dict__.update(env_globals)
